@@ -1088,9 +1088,19 @@ func ruleWriteDeadlineOwner(c *Ctx) {
 							ok = true
 						}
 					}
+					if cc := callCommon(in); cc != nil && len(cc.Args) == 1 {
+						d := describe(cc.Args[0])
+						R.Ob(c.siteKey(in, "write deadline derives from WriteTimeout"), c.P.InstrPos(in), strings.Contains(d, "Server.WriteTimeout") && !strings.Contains(d, "ReadTimeout"), "write deadline armed with "+d+": not the configured WriteTimeout")
+					}
 					R.Ob(c.siteKey(in, "write deadline only where WriteTimeout is set"), c.P.InstrPos(in), ok, fmt.Sprintf("write deadline armed without a WriteTimeout != 0 guard (facts: %v)", ff.At(in).list()))
 				case "icall:iface:(net.Conn).SetReadDeadline":
 					nDl++
+					// a read deadline is the read timeout (a message body read against the WRITE timeout — zero when
+					// unset: "now" — is cut off at once or at the first slow segment)
+					if cc := callCommon(in); cc != nil && len(cc.Args) == 1 {
+						d := describe(cc.Args[0])
+						R.Ob(c.siteKey(in, "read deadline derives from ReadTimeout"), c.P.InstrPos(in), strings.Contains(d, "Server.ReadTimeout") && !strings.Contains(d, "WriteTimeout"), "read deadline armed with "+d+": not the configured ReadTimeout")
+					}
 				}
 			}
 		})
